@@ -11,12 +11,25 @@ TEXTS = [
     "é ạ̊ 각", "tab\tnl\ncr\r quote\" back\\ slash/", "‍‮﻿", "\x00\x1f\x7f",
     "data: x", "event: endpoint", "}\n\n{", "\\u00e9 \\n", "\U0010FFFF퟿", "[1]", "null",
 ]
-KEYS = ["k", "é", "", "a b", "\U0001F600", "data", "id", "jsonrpc"]
+# format-hostile text (wherever text is logged, formatted or embedded)
+HOSTILE = ["%", "%s %d %(x)s", "{}", "{0} {x}", "\r\n", "'", "\"", "\\", "\\\"", "%%", "{{}}", "$TOK?", "\x85", "\u2029\u2028"]
+# constants of the anchored modules (transports, send_message) in open text / name positions
+MAGIC = ["message", "response", "endpoint", "keepalive", "event: message", "data: {\"jsonrpc\":\"2.0\"}", "/messages/", "/mcp",
+         "session_id=", "2.0", "Request timeout", "Parse error", "No JSON-RPC response in HTTP reply", "unknown", "Accepted",
+         "notifications/progress", "notifications/cancelled", "progressToken", "_meta", "Cancelled by client", "JSON-RPC Error:",
+         "application/json", "text/event-stream", "Mcp-Session-Id", "[DONE]"]
+TEXTS = TEXTS + HOSTILE + MAGIC
+KEYS = ["k", "é", "", "a b", "\U0001F600", "data", "id", "jsonrpc", "method", "params", "result", "error", "_meta", "progressToken", "%s", "{}"]
+FLOATS = [0.0, 1.5, -2.5e-07, 1e+300]
 INTS = [0, 1, -1, 7, 2 ** 31, -(2 ** 63), 2 ** 53 + 1, 2 ** 64 - 1]
 LATS = [1, 1, 1, 2, 3, 17, 511, 512, 513, 700, 1500]
 NOTIF_METHODS = ["notifications/message", "notifications/progress", "notifications/resources/updated",
-                 "notifications/tools/list_changed", "notifications/x-é"]
+                 "notifications/tools/list_changed", "notifications/x-é", "notifications/cancelled", "notifications/initialized",
+                 "message", "endpoint", "ping", "initialize", "%s/{}", "x"]
 UNNAMED_CODES = [-31999, -32050, 0, 1, 404, -1]
+FALSY = [0, 0.0, "", [], {}, False, None]
+RAW_IDS = [{"i": 0}, {"s": ""}, {"s": "0"}, {"i": 7}, {"s": "7"}, {"i": -1}, {"i": 2 ** 53 + 1}, {"s": "req-%s-{}"}, {"s": "é\u2028"}]
+BURSTS = [99, 100, 101, 250]
 
 
 def text(rng):
@@ -28,6 +41,8 @@ def text(rng):
 def value(rng, depth=3):
     r = rng.random()
     if depth <= 0 or r < 0.35:
+        if rng.random() < 0.06:
+            return rng.choice(FLOATS)
         return rng.choice([None, True, False, rng.choice(INTS), text(rng), text(rng), {}, []])
     if r < 0.65:
         return [value(rng, depth - 1) for _ in range(rng.randint(0, 3))]
@@ -50,9 +65,12 @@ def error_codes():
 def error_reply(rng, cls=None):
     classes = error_codes()
     name, codes = classes[cls] if cls is not None else rng.choice(classes)
-    e = {"code": rng.choice(codes), "message": text(rng)}
-    if rng.random() < 0.5:
+    e = {"code": rng.choice(codes), "message": text(rng) if rng.random() < 0.8 else ""}
+    r = rng.random()
+    if r < 0.35:
         e["data"] = value(rng, 2)
+    elif r < 0.6:
+        e["data"] = rng.choice(FALSY + [1.5, "x", [None], {"": 0}])  # data of every JSON type, falsy ones first
     return {"error": e}
 
 
@@ -91,9 +109,9 @@ def helper_names():
 
 def call(rng, names, k=0):
     r = rng.random()
-    if r < 0.4:
-        params = obj(rng, 2) if rng.random() < 0.7 else None
-        c = {"h": "send_message", "method": rng.choice(["tools/list", "tools/call", "resources/read", "prompts/get", "x/é"]), "params": params}
+    if r < 0.38:
+        params = obj(rng, 2) if rng.random() < 0.7 else rng.choice([None, {}])
+        c = {"h": "send_message", "method": rng.choice(["tools/list", "tools/call", "resources/read", "prompts/get", "x/é", "%s", "message"]), "params": params}
         # an id chosen by the caller (integer, digit string, plain string); otherwise send_message makes one up
         q = rng.random()
         if q < 0.2:
@@ -102,10 +120,29 @@ def call(rng, names, k=0):
             c["id"] = {"s": str(7 + k)}
         elif q < 0.45:
             c["id"] = {"s": f"req-é-{k}"}
+        if rng.random() < 0.2:
+            c["progress"] = True
+        if k and rng.random() < 0.15:
+            c["reuse"] = True
         return c
-    if r < 0.47:
+    if r < 0.5:
+        # written to the write stream / read from the read stream by hand: ids the helpers cannot produce
+        return {"h": "raw", "id": copy.deepcopy(rng.choice(RAW_IDS)), "method": rng.choice(["tools/list", "x", "ping"]),
+                "params": rng.choice([None, {}, {"x": ""}]) if rng.random() < 0.6 else obj(rng, 2),
+                "form": rng.choice(["request", "legacy", "dict"]), "pause": rng.choice([0, 0, 0, 30, 700])}
+    if r < 0.56:
         return {"h": "send_initialize"}
     return {"h": rng.choice(names)}
+
+
+def progress_notif(rng, own):
+    """a progress notification: for the call's own token ("$TOK"), or a foreign one of either JSON type"""
+    p = {"progressToken": "$TOK" if own else rng.choice([7, "7", 0, ""]), "progress": rng.choice([0, 0.0, 1, 0.5, 99])}
+    if rng.random() < 0.6:
+        p["total"] = rng.choice([0, 1, 100, 0.0])
+    if rng.random() < 0.6:
+        p["message"] = rng.choice(["", text(rng)])
+    return {"method": "notifications/progress", "params": p}
 
 
 def notif(rng):
@@ -118,7 +155,7 @@ def notif(rng):
     return n
 
 
-def exchange(rng, names, max_notifs=3, err_cls=None, k=0):
+def exchange(rng, names, max_notifs=3, err_cls=None, k=0, plain=False):
     c = call(rng, names, k)
     n = rng.choice([0, 0, 1, 1, 2, 3][: max_notifs + 3]) if max_notifs else 0
     if err_cls is not None or rng.random() < 0.3:
@@ -126,13 +163,28 @@ def exchange(rng, names, max_notifs=3, err_cls=None, k=0):
     else:
         # a typed helper mostly gets a result of its shape; now and then any object (its validation
         # then decides — the same way on every carrier)
-        res = template(c["h"], rng) if (c["h"] != "send_message" and rng.random() < 0.9) else obj(rng, 3)
+        res = template(c["h"], rng) if (c["h"] not in ("send_message", "raw") and rng.random() < 0.9) else obj(rng, 3)
         if rng.random() < 0.25:
             res = dict(res)
             res["x-extra"] = value(rng, 2)
         reply = {"result": res}
-    return {"call": c, "notifs": [notif(rng) for _ in range(min(n, max_notifs))], "reply": reply,
-            "lat": rng.choice(LATS), "gap": rng.choice([1, 1, 2, 600])}
+    ns = [notif(rng) for _ in range(min(n, max_notifs))]
+    if c.get("progress") and max_notifs:
+        ns = [progress_notif(rng, rng.random() < 0.7) for _ in range(rng.randint(1, 3))] + ns[:1]
+    x = {"call": c, "notifs": ns, "reply": reply, "lat": rng.choice(LATS), "gap": rng.choice([1, 1, 2, 600])}
+    if plain:
+        return x
+    if c["h"] in ("send_message", "raw") and "result" in reply and rng.random() < 0.35:
+        x["echo"] = True   # the outbound path becomes client-observable
+    if max_notifs and rng.random() < 0.2:
+        # messages after the reply: notifications, the reply once more
+        x["after"] = [notif(rng) for _ in range(rng.randint(1, 2))] + ([{"dup": True}] if rng.random() < 0.25 else [])
+    if rng.random() < 0.06 and not c.get("pause"):
+        # a call that gives up (tiny / zero timeout) long before the answer comes; the conversation goes on
+        x["D"] = rng.choice([0, 1, 2])
+        x["lat"] = rng.choice([10, 30])
+        x["gap"] = 1
+    return x
 
 
 def cuts(rng, approx_len=200):
@@ -172,18 +224,28 @@ def noise(rng, p=0.25):
 
 
 def wire(rng, xs):
-    nmsg = sum(len(x["notifs"]) + 1 for x in xs)
+    nmsg = sum(len(x["notifs"]) + 1 + len(x.get("after", [])) for x in xs)
     w = {}
     if rng.random() < 0.8:
         w["stdio"] = {"crlf": [rng.random() < 0.4 for _ in range(nmsg)], "cuts": [cuts(rng) for _ in xs]}
-    if rng.random() < 0.8:
-        w["json"] = [{"status": rng.choice([200, 200, 201]), "sess": rng.choice([None, None, "S-1"]), "batch": rng.random() < 0.3} for _ in xs]
+        if rng.random() < 0.3:
+            w["stdio"]["batch"] = [rng.random() < 0.5 for _ in xs]
+        if rng.random() < 0.3:
+            w["stdio"]["blank"] = [rng.choice([[], [], [""], [" \t"], ["\r", ""], ["\u2028"]]) for _ in range(nmsg)]
+        if rng.random() < 0.15:
+            w["stdio"]["eof"] = True
+    needs_all = [bool(x["notifs"] or x.get("after")) for x in xs]
+    if any(needs_all) and rng.random() < 0.5:
+        needs_all = None  # this conversation is not put on HTTP + JSON bodies
+    if needs_all is not None and (any(needs_all) or rng.random() < 0.8):
+        w["json"] = [{"status": rng.choice([200, 200, 201]), "sess": rng.choice([None, None, "S-1", "", "0"]),
+                      "batch": rng.random() < 0.3, "all": na or rng.random() < 0.15} for na in needs_all]
     if rng.random() < 0.8:
         w["httpsse"] = [{
-            "status": rng.choice([200, 200, 201]), "sess": rng.choice([None, "S-2"]),
+            "status": rng.choice([200, 200, 201]), "sess": rng.choice([None, "S-2", ""]),
             "evs": [{"name": rng.choice([None, "message", "response"]), "nc": field_choice(rng), "dc": field_choice(rng),
                      "after": ignored(rng) if rng.random() < 0.3 else [], "before": noise(rng)}
-                    for _ in range(len(x["notifs"]) + 1)],
+                    for _ in range(len(x["notifs"]) + 1 + len(x.get("after", [])))],
             "trailing": noise(rng),
             "eols": [rng.random() < 0.5 for _ in range(rng.choice([0, 4, 24]))],
             "tail": rng.choice(["full", "noblank", "noeol"])} for x in xs]
@@ -195,6 +257,12 @@ def wire(rng, xs):
             pre.append({"k": "keepalive", "d": "{}", "crlf": rng.random() < 0.5})
         w["sse"] = {"pre": pre, "crlf": [rng.random() < 0.4 for _ in range(nmsg)], "cuts": [cuts(rng) for _ in xs],
                     "ack": [rng.choice([0, 0, 1, 2, 9]) for _ in xs]}
+        if rng.random() < 0.25:
+            w["sse"]["m200"] = [rng.random() < 0.5 for _ in xs]
+        if rng.random() < 0.15:
+            w["sse"]["eof"] = True
+        if rng.random() < 0.15:
+            w["sse"]["untyped"] = [rng.random() < 0.5 for _ in range(nmsg)]
     return w
 
 
@@ -202,12 +270,67 @@ TIES = ["events", "timers", "io"]
 STYLES = [{"sp": False, "ascii": False}, {"sp": True, "ascii": True}, {"sp": False, "ascii": True}, {"sp": True, "ascii": False}]
 
 
+def style(rng):
+    st = dict(rng.choice(STYLES))
+    if rng.random() < 0.2:
+        st["order"] = "rev"   # top-level members in reverse order (id after result, jsonrpc last)
+    if rng.random() < 0.2:
+        st["extra"] = True    # an extra top-level member
+    return st
+
+
 def conversation(rng, names, all_carriers=None):
-    """`all_carriers`: no notifications, so that HTTP + JSON bodies can express it too"""
+    """`all_carriers`: no notifications, so that HTTP + JSON bodies can express it with one message per body"""
     if all_carriers is None:
-        all_carriers = rng.random() < 0.4
+        all_carriers = rng.random() < 0.35
     xs = [exchange(rng, names, max_notifs=0 if all_carriers else 3, k=k) for k in range(rng.choice([1, 1, 2, 2, 3, 4]))]
-    return {"xs": xs, "style": rng.choice(STYLES), "D": 5120, "tie": rng.choice(TIES), "wire": wire(rng, xs)}
+    if rng.random() < 0.08:
+        # id twins side by side: the integer 7 and the string "7" (and the falsy pair) on one connection
+        twins = rng.choice([[{"i": 7}, {"s": "7"}], [{"i": 0}, {"s": "0"}, {"s": ""}]])
+        for k, x in enumerate(xs):
+            if x["call"]["h"] in ("send_message", "raw"):
+                t = twins[k % len(twins)]
+                if x["call"]["h"] == "raw" or G.idval(t):
+                    x["call"]["id"] = copy.deepcopy(t)
+    return {"xs": xs, "style": style(rng), "D": 5120, "tie": rng.choice(TIES), "wire": wire(rng, xs)}
+
+
+def small_notifs(n, tag="b"):
+    return [{"method": "notifications/message", "params": {"data": f"{tag}{i}"}} for i in range(n)]
+
+
+def limits(rng, names, budget):
+    """large messages (>= 64 KiB, >= 1 MiB) in every text position and direction, bursts around the
+    100-slot stream buffers, producer and consumer paused — on every carrier (`all`: JSON bodies too)"""
+    out = []
+    sizes = [65535, 65536, 65537, 70000] + ([1100000] if budget != "quick" else [])
+    pick = (lambda l, n: l) if budget != "quick" else (lambda l, n: rng.sample(l, min(n, len(l))))
+    def conv(xs, **w):
+        return {"xs": xs, "style": style(rng), "D": 5120, "tie": rng.choice(TIES), "wire": w}
+    unit = rng.choice(["a", "é", "\U0001F600", "\u2028"])
+    for size in pick(sizes, 2) + ([1100000] if budget == "quick" else []):
+        big = unit * (size // len(unit.encode("utf-8")) + 1)
+        where = rng.choice(["result", "notif", "request", "error"])
+        x = {"call": {"h": "send_message", "method": "tools/call", "params": {"big": big} if where == "request" else None},
+             "notifs": [{"method": "notifications/message", "params": {"data": big}}] if where == "notif" else [],
+             "reply": {"error": {"code": -32602, "message": big}} if where == "error" else {"result": {"t": big if where == "result" else "s"}},
+             "echo": where == "request", "lat": 1, "gap": 1}
+        edge = [65535, 65536, 65537, 131072]
+        out.append(conv([x, exchange(rng, names, 0, k=1, plain=True)],
+                        stdio={"cuts": [edge, []]}, sse={"cuts": [edge, []], "ack": [rng.choice([0, 1, 9]), 0]},
+                        json=[{"all": True}, {}]))
+    for n in pick(BURSTS, 2):
+        # before the reply, the helper reading all along
+        out.append(conv([{"call": {"h": rng.choice(names)}, "notifs": small_notifs(n), "reply": {"result": {}}, "lat": 1, "gap": 1},
+                         exchange(rng, names, 0, k=1, plain=True)], json=[{"all": True}, {}]))
+    for n in pick(BURSTS, 2):
+        # slow consumer: nobody reads while the burst and the reply arrive (pause), and a burst AFTER
+        # a reply, before the next call starts reading: the 100-slot buffers fill and must drain in order
+        out.append(conv([{"call": {"h": "raw", "id": {"i": 0}, "method": "tools/list", "params": None, "pause": 700},
+                          "notifs": small_notifs(n), "reply": {"result": {"n": n}}, "after": small_notifs(n, "a"), "lat": 1, "gap": 1},
+                         {"call": {"h": "send_ping"}, "notifs": small_notifs(3, "c"), "reply": {"result": {}}, "lat": 1, "gap": 1}],
+                        json=[{"all": True}, {"all": True}], sse={"ack": [rng.choice([0, 1]), 0]}))
+    return out
 
 
 def directed(rng, names):
@@ -224,6 +347,38 @@ def directed(rng, names):
     return out
 
 
+def sequences(rng, names):
+    """several operations on one connection: a second initialize, a call after each kind of failed
+    call (error reply, result the helper rejects, timeout), the same params object three times"""
+    ok = lambda h: {"call": {"h": h}, "notifs": [], "reply": {"result": template(h, rng)}, "lat": 1, "gap": 1}
+    out = []
+    mk = lambda xs: {"xs": xs, "style": style(rng), "D": 5120, "tie": rng.choice(TIES)}
+    out.append(mk([ok("send_initialize"), ok("send_tools_list"), ok("send_initialize"), ok("send_ping")]))
+    for cls in range(3):
+        bad = {"call": {"h": "send_tools_list"}, "notifs": [], "reply": error_reply(rng, cls), "lat": 1, "gap": 1}
+        out.append(mk([bad, ok("send_tools_list"), bad, ok("send_ping")]))
+    out.append(mk([{"call": {"h": "send_tools_list"}, "notifs": [], "reply": {"result": {"tools": "no list"}}, "lat": 1, "gap": 1}, ok("send_tools_list")]))
+    for D in (0, 1, 2):
+        out.append(mk([{"call": {"h": "send_tools_call"}, "notifs": [notif(rng)], "reply": {"result": template("send_tools_call", rng)}, "D": D, "lat": 20, "gap": 1},
+                       ok("send_tools_call"), ok("send_ping")]))
+    p = {"x": "", "n": [], "_meta": {"k": 0}}
+    out.append(mk([{"call": {"h": "send_message", "method": "tools/call", "params": p, "progress": True}, "notifs": [progress_notif(rng, True)],
+                    "reply": {"result": {}}, "echo": True, "lat": 1, "gap": 1}] +
+                  [{"call": {"h": "send_message", "method": "tools/call", "params": None, "reuse": True, "progress": k == 1}, "notifs": [progress_notif(rng, k == 1)],
+                    "reply": {"result": {"k": k}}, "echo": True, "lat": 1, "gap": 1} for k in (1, 2)]))
+    for t in FALSY:
+        # falsy values in every peer-supplied position at once
+        e = {"code": 0, "message": ""}
+        if t is not None:
+            e["data"] = t
+        out.append(mk([{"call": {"h": "raw", "id": {"i": 0}, "method": "x", "params": {} if t != {} else None, "form": "dict"},
+                        "notifs": [{"method": "x", "params": {}}, {"method": "notifications/progress", "params": {"progressToken": 0, "progress": 0, "total": 0, "message": ""}}],
+                        "reply": {"error": e}, "lat": 1, "gap": 1},
+                       {"call": {"h": "raw", "id": {"s": ""}, "method": "x", "params": None, "form": "legacy"}, "notifs": [],
+                        "reply": {"result": {"v": t, "": t}}, "echo": True, "lat": 1, "gap": 1}]))
+    return out
+
+
 def cases(rng, count, names):
     out = []
     for _ in range(count):
@@ -237,6 +392,8 @@ def _simplify(v):
     """smaller variants of a JSON value"""
     if isinstance(v, str) and v != "a":
         yield "a"
+        if len(v) > 64:
+            yield v[:32]
         if len(v) > 1:
             yield v[: len(v) // 2]
             yield v[len(v) // 2:]
@@ -279,6 +436,12 @@ def shrink_candidates(case):
             c = copy.deepcopy(case)
             del c["wire"][k]
             yield c
+        for k, sub in case["wire"].items():
+            if isinstance(sub, dict):
+                for kk in list(sub):
+                    c = copy.deepcopy(case)
+                    del c["wire"][k][kk]
+                    yield c
     if case.get("tie", "events") != "events":
         c = copy.deepcopy(case)
         c["tie"] = "events"
@@ -302,12 +465,36 @@ def shrink_candidates(case):
             del c["xs"][i]["notifs"][j]
             c.pop("wire", None)
             yield c
-        if x.get("lat", 1) != 1 or x.get("gap", 1) != 1:
+        if (x.get("lat", 1) != 1 or x.get("gap", 1) != 1) and "D" not in x:  # (a call that gives up keeps its distance to the answer)
             c = copy.deepcopy(case)
             c["xs"][i]["lat"] = 1
             c["xs"][i]["gap"] = 1
             yield c
-        if x["call"]["h"] != "send_message":
+        for key in ("after", "echo", "D"):
+            if key in x:
+                c = copy.deepcopy(case)
+                del c["xs"][i][key]
+                c.pop("wire", None) if key == "after" else None
+                yield c
+        for key in ("notifs", "after"):
+            l = x.get(key) or []
+            if len(l) > 3:
+                for part in (l[: len(l) // 2], l[len(l) // 2:]):
+                    c = copy.deepcopy(case)
+                    c["xs"][i][key] = part
+                    c.pop("wire", None)
+                    yield c
+        for j in range(len(x.get("after") or []) if len(x.get("after") or []) <= 3 else 0):
+            c = copy.deepcopy(case)
+            del c["xs"][i]["after"][j]
+            c.pop("wire", None)
+            yield c
+        for key in ("progress", "reuse", "pause", "form"):
+            if x["call"].get(key):
+                c = copy.deepcopy(case)
+                del c["xs"][i]["call"][key]
+                yield c
+        if x["call"]["h"] not in ("send_message", "raw"):
             c = copy.deepcopy(case)
             c["xs"][i]["call"] = {"h": "send_message", "method": "tools/list", "params": None}
             yield c
@@ -316,7 +503,7 @@ def shrink_candidates(case):
                 c = copy.deepcopy(case)
                 c["xs"][i]["call"]["params"] = None
                 yield c
-            if x["call"].get("id") is not None:
+            if x["call"].get("id") is not None and x["call"]["h"] == "send_message":
                 c = copy.deepcopy(case)
                 del c["xs"][i]["call"]["id"]
                 yield c
@@ -326,12 +513,13 @@ def shrink_candidates(case):
                     c = copy.deepcopy(case)
                     c["xs"][i]["reply"][key] = s
                     yield c
-        for j, n in enumerate(x["notifs"]):
-            if "params" in n:
-                for s in list(_simplify(n["params"])) + [None]:
-                    c = copy.deepcopy(case)
-                    if s is None:
-                        del c["xs"][i]["notifs"][j]["params"]
-                    else:
-                        c["xs"][i]["notifs"][j]["params"] = s
-                    yield c
+        for key in ("notifs", "after"):
+            for j, n in enumerate(x.get(key) or []):
+                if "params" in n:
+                    for s in [None] + list(_simplify(n["params"])):
+                        c = copy.deepcopy(case)
+                        if s is None:
+                            del c["xs"][i][key][j]["params"]
+                        else:
+                            c["xs"][i][key][j]["params"] = s
+                        yield c
